@@ -66,6 +66,8 @@ type c06Host struct {
 // tails: content placed after an element of a host path is closed, so that the document is
 // usable by the battery (a table with properties also has a grid and a row, ...).
 var c06Tails = map[string]string{
+	"sdtPr":      `<w:sdtContent><w:p><w:r><w:t>c{{v}}</w:t></w:r></w:p></w:sdtContent>`,
+	"docPartObj": ``,
 	"tblPr": `<w:tblGrid><w:gridCol w:w="100"/></w:tblGrid><w:tr><w:tc><w:p><w:r><w:t>c</w:t></w:r></w:p></w:tc></w:tr>`,
 	"tcPr":  `<w:p><w:r><w:t>c</w:t></w:r></w:p>`,
 	"trPr":  `<w:tc><w:p><w:r><w:t>c</w:t></w:r></w:p></w:tc>`,
@@ -83,7 +85,14 @@ var c06HostPaths = []string{
 	"tbl", "tbl/tblPr", "tbl/tblPr/tblBorders", "tbl/tblPr/tblCellMar", "tbl/tblGrid", "tbl/tr", "tbl/tr/trPr",
 	"tbl/tr/tc", "tbl/tr/tc/tcPr", "tbl/tr/tc/tcPr/tcBorders", "tbl/tr/tc/tcPr/tcMar", "tbl/tr/tc/p/r", "tbl/tr/tc/tbl/tr/tc",
 	"sectPr",
+	// wrappers whose readers were added later (content controls, hyperlinks, tab stops); explored with the
+	// lighter product (see c06LightHosts)
+	"sdt", "sdt/sdtPr", "sdt/sdtPr/docPartObj", "sdt/sdtContent", "p/hyperlink", "p/sdt/sdtContent", "p/pPr/tabs", "tbl/tr/tc/sdt/sdtContent",
 }
+
+// c06LightHosts: under these hosts the quick tier runs pairs without attribute variants only.
+var c06LightHosts = map[string]bool{"sdt": true, "sdt/sdtPr": true, "sdt/sdtPr/docPartObj": true, "sdt/sdtContent": true, "p/hyperlink": true,
+	"p/sdt/sdtContent": true, "p/pPr/tabs": true, "tbl/tr/tc/sdt/sdtContent": true}
 
 var c06Hosts = func() []c06Host {
 	var out []c06Host
@@ -212,6 +221,9 @@ func (w *c06W) genShapes(idx *int64) {
 			}
 			for _, av := range pairAV {
 				av := av
+				if !thorough && av != 0 && c06LightHosts[strings.TrimPrefix(h.name, "body/")] {
+					continue
+				}
 				for _, a := range V {
 					for _, b := range V {
 						a, b := a, b
@@ -246,6 +258,46 @@ func (w *c06W) genShapes(idx *int64) {
 					}
 				}
 			}
+		}
+	}
+}
+
+// ---------------------------------------------------------------------------
+// table-of-contents content controls: every combination of the parts a TOC content control can have or
+// lack, between headings, so that the TOC calls of the battery meet each of them (seed C06-d2)
+
+func (w *c06W) genTOC(idx *int64) {
+	prs := []string{"", "<w:sdtPr/>", "<w:sdtPr><w:docPartObj/></w:sdtPr>",
+		`<w:sdtPr><w:docPartObj><w:docPartGallery w:val="Table of Contents"/><w:docPartUnique/></w:docPartObj></w:sdtPr>`,
+		`<w:sdtPr><w:docPartObj><w:docPartGallery w:val="Table of Contents"/></w:docPartObj></w:sdtPr>`,
+		`<w:sdtPr><w:docPartObj><w:docPartGallery/></w:docPartObj></w:sdtPr>`,
+		`<w:sdtPr><w:docPartObj><w:docPartGallery w:val="Cover Pages"/></w:docPartObj></w:sdtPr>`}
+	ends := []string{"", "<w:sdtEndPr/>", "<w:sdtEndPr><w:rPr><w:b/></w:rPr></w:sdtEndPr>"}
+	tocP := `<w:p><w:pPr><w:pStyle w:val="TOC1"/></w:pPr><w:r><w:t>Old entry</w:t></w:r></w:p>`
+	contents := []string{"", "<w:sdtContent/>", "<w:sdtContent><w:p/></w:sdtContent>", "<w:sdtContent>" + tocP + "</w:sdtContent>",
+		`<w:sdtContent><w:p><w:r><w:fldChar w:fldCharType="begin"/></w:r><w:r><w:instrText>TOC \\o "1-3"</w:instrText></w:r><w:r><w:fldChar w:fldCharType="end"/></w:r></w:p></w:sdtContent>`,
+		`<w:sdtContent><w:tbl><w:tr><w:tc><w:p/></w:tc></w:tr></w:tbl></w:sdtContent>`}
+	h1 := `<w:p><w:pPr><w:pStyle w:val="Heading1"/></w:pPr><w:r><w:t>Head {{v}}</w:t></w:r></w:p>`
+	arounds := [][2]string{{"", ""}, {h1, ""}, {"", h1}, {h1, h1 + "<w:sectPr/>"}}
+	for pi, pr := range prs {
+		for ei, en := range ends {
+			for ci, co := range contents {
+				for ai, ar := range arounds {
+					body := ar[0] + "<w:sdt>" + pr + en + co + "</w:sdt>" + ar[1]
+					w.rawCase(idx, "toc", fmt.Sprintf("sdt pr=%d end=%d content=%d around=%d", pi, ei, ci, ai), 0, len(body), func() []byte {
+						return c06MinimalZip([]byte(c06DocOpen + body + c06DocClose))
+					})
+				}
+			}
+		}
+	}
+	// paragraph-style tables of contents (no content control)
+	for ai, ar := range arounds {
+		for n := 1; n <= 2; n++ {
+			body := ar[0] + strings.Repeat(tocP, n) + ar[1]
+			w.rawCase(idx, "toc", fmt.Sprintf("TOC-styled paragraphs n=%d around=%d", n, ai), 0, len(body), func() []byte {
+				return c06MinimalZip([]byte(c06DocOpen + body + c06DocClose))
+			})
 		}
 	}
 }
